@@ -1118,11 +1118,11 @@ class IkeSa(object):
                 response_payloads = [PayloadNOTIFY.from_exception(TemporaryFailure())]
             else:
                 self.new_ike_sa = IkeSa(False, proposal.spi, self.configuration, self.my_addr, self.peer_addr)
-                # take over the existing child sas
-                self.new_ike_sa.child_sas = self.child_sas
-                self.child_sas = []
                 response_payloads = self.new_ike_sa._process_ike_sa_negotiation_request(request, True,
                                                                                         self.ike_sa_keyring.sk_d)
+                # take over the existing child sas (only once the negotiation has succeeded)
+                self.new_ike_sa.child_sas = self.child_sas
+                self.child_sas = []
                 self.new_ike_sa.state = IkeSa.State.ESTABLISHED
                 self.state = IkeSa.State.REKEYED
         # if it is a to CHILD_SAs
